@@ -300,10 +300,10 @@ impl Engine for LogEngine {
                     2 => json!({"t": t, "op": "close"}),
                     3 => json!({"t": t, "op": "global", "k": k}),
                     _ => {
-                        let with_loc = rng.chance(2, 3);
+                        // file, line and module are present or absent independently of each other
                         json!({"t": t, "op": "log", "level": rng.range(1, 5), "target": *rng.pick(&TARGETS), "msg": *rng.pick(&["plain message", "with \"quotes\" and {braces}", "", "multi word message 42", "unicode \u{e9}\u{1F600}"]),
-                               "file": if with_loc { json!(*rng.pick(&["src/main.rs", "weird file.rs"])) } else { Value::Null },
-                               "line": if with_loc && rng.chance(3, 4) { json!(rng.range(1, 5000)) } else { Value::Null },
+                               "file": if rng.chance(1, 2) { json!(*rng.pick(&["src/main.rs", "weird file.rs"])) } else { Value::Null },
+                               "line": if rng.chance(1, 2) { json!(rng.range(1, 5000)) } else { Value::Null },
                                "module": if rng.chance(1, 2) { json!(*rng.pick(&["app::module", "hyper::proto::h1"])) } else { Value::Null }})
                     }
                 });
